@@ -95,6 +95,7 @@ func c0102(rep *ev.Reporter, tier string, judge func(c *Case, tr *hx.Trace, w *r
 	gen := func(emit0 func(Case)) {
 		emit := func(c Case) {
 			c.ReuseDC = true // applies to programs calling Forget / Changed
+			c.Histories = true
 			emit0(c)
 		}
 		depMatrix(nShapes, maxCycle, emit)
